@@ -11,7 +11,8 @@ SHARD = 200
 RULE = ("vertex lists of 0..40 vertices on integer / half-integer / rational grids: random walks, collinear runs, repeated points, closed loops with a zero-length "
         "closing segment, sharp reversals, vertices projecting before the start / past the end / exactly at an end of the chord, distance exactly equal to the tolerance; "
         "tolerances <= 0, tiny, comparable to the step, huge; the survivors are identified by object identity; the predicate is also compared with "
-        "max_dist_from_n_points on floats; non-trivial = at least one vertex deleted, or a predicate call with >= 4 points")
+        "max_dist_from_n_points on floats; plus float runs of supersample on long nearly straight runs (chord 1e3..1e11 tolerances long, offsets of 0.3..40 tolerances, "
+        "rotated / translated), judged in exact arithmetic with a relative slack of 1e-6 on the tolerance; non-trivial = at least one vertex deleted, or a predicate call with >= 4 points")
 TRUSTED = ["python Fraction arithmetic = exact rational arithmetic; object identity via id()",
            "ink_extensions.ffgeom distance (float sqrt) as the reference measurement, compared outside a 1e-9 relative band around the tolerance"]
 ASSUMPTIONS = ["finite coordinates"]
@@ -59,9 +60,27 @@ def generate(rng, tier):
         if len(pts) >= 3:
             k = rng.randint(3, len(pts)); a = rng.randint(0, len(pts) - k)
             cases.append({"kind": "p", "pts": pts[a:a + k], "tol": tol if tol > 0 else F(1), "family": "predicate"})
+    # float runs (the arithmetic of the code is the double-precision one): long, nearly straight runs with a tiny tolerance - the
+    # offsets are a few tolerances, the chord 1e7..1e11 tolerances long - and ordinary drawing-sized float data; judged exactly
+    import math
+    for _ in range(n // 5):
+        tol = rng.choice([1e-6, 1e-5, 1e-3, 0.01]); L = rng.choice([10.0, 1e3, 1e4, 1e5]); ang = rng.choice([0.0, 0.0, 0.3, 1.1, math.pi / 2])
+        ox, oy = rng.choice([(0.0, 0.0), (0.0, 0.0), (123.456, -78.9), (1e4, 1e4)])
+        m = rng.choice([3, 4, 4, 5, 8]); ts = sorted(rng.uniform(0.05, 0.95) for _ in range(m - 2))
+        pts = []
+        for t, off in [(0.0, 0.0)] + [(t, rng.choice([0.3, 0.9, 1.5, 3.0, 10.0, 40.0, -2.0, -20.0, 0.0]) * tol) for t in ts] + [(1.0, 0.0)]:
+            x, y = t * L, off
+            pts.append((F(ox + x * math.cos(ang) - y * math.sin(ang)), F(oy + x * math.sin(ang) + y * math.cos(ang))))
+        cases.append({"kind": "f", "pts": pts, "tol": F(tol), "family": "float/long-run L/tol=1e%d" % round(math.log10(L / tol))})
     return cases
 
 def run_impl(c):
+    if c["kind"] == "f":
+        objs = [[float(x), float(y)] for x, y in c["pts"]]
+        work = list(objs)
+        plot_utils.supersample(work, float(c["tol"]))
+        ident = {id(o): i for i, o in enumerate(objs)}
+        return {"kept": [ident.get(id(o), -1) for o in work]}
     if c["kind"] == "s":
         objs = [[x, y] for x, y in c["pts"]]           # distinct objects, even for equal points
         work = list(objs)
@@ -74,17 +93,17 @@ def run_impl(c):
     return {"pit": bool(pit), "maxdist": F(md)}
 
 def coq_case(c, r):
-    if c["kind"] == "s":
+    if c["kind"] in ("s", "f"):
         v = clist(["(%s, (%s, %s))" % (cz(i), cq(x), cq(y)) for i, (x, y) in enumerate(c["pts"])])
         impl = "None" if "raise" in r else "(Some %s)" % clist([cz(i) for i in r["kept"]])
-        return "(K09s %s %s %s)" % (v, cq(c["tol"]), impl)
+        return "(%s %s %s %s)" % ("K09s" if c["kind"] == "s" else "K09f", v, cq(c["tol"]), impl)
     pts = clist(["(%s, %s)" % (cq(x), cq(y)) for x, y in c["pts"]])
     if "raise" in r:
         return "(K09p %s %s None None)" % (pts, cq(c["tol"]))
     return "(K09p %s %s (Some %s) (Some %s))" % (pts, cq(c["tol"]), cb(r["pit"]), cq(r["maxdist"]))
 
 def nontrivial(c, r):
-    if c["kind"] == "s": return "kept" in r and len(r["kept"]) < len(c["pts"])
+    if c["kind"] in ("s", "f"): return "kept" in r and len(r["kept"]) < len(c["pts"])
     return len(c["pts"]) >= 4
 
 def explain(c, r):
